@@ -468,6 +468,9 @@ class C06(vlib.Driver):
                 "GAE_LAMBDA": 0.95, "ACTION_STD_INIT": 0.6, "CLIP_COEF": 0.2, "ENT_COEF": 0.01, "VF_COEF": 0.5,
                 "MAX_GRAD_NORM": 0.5, "TARGET_KL": None, "UPDATE_EPOCHS": 1, "SHARE_ENCODERS": bool(case.get("share", True))}
         INIT.update(case.get("init", {}))
+        # object identity is not part of a case (JSON): every number handed to the constructor is a fresh object, so two
+        # equal values are two objects unless the case asks for one object explicitly (equal_lrs / objects == "same")
+        INIT = {k: (float(repr(v)) if isinstance(v, float) else v) for k, v in INIT.items()}
         if case.get("equal_lrs") and algo in LR2:
             # the two learning rates have the SAME value: as distinct float objects (parsed from a file) or as one
             # object (one literal / one variable used twice) — object identity is lost in JSON, so it is rebuilt here
@@ -939,8 +942,8 @@ class C06(vlib.Driver):
 
     def neighbours(self, case, rng):
         if case["kind"] == "pop":
-            for t in range(1, len(case["ops"])):
-                yield dict(case, ops=case["ops"][:t])
+            for t in range(1, len(case["ops"]) + 1):     # the case itself last: an oracle failure listed as known finding
+                yield dict(case, ops=case["ops"][:t])    # must not surface as an unexplained model/implementation disagreement
         elif case["kind"] == "value":
             for pt in case["pts"][:50]:
                 yield dict(case, pts=[pt])
